@@ -2,6 +2,7 @@ package operators
 
 import (
 	"context"
+	"strings"
 
 	"github.com/MontFerret/ferret/pkg/runtime/core"
 	"github.com/MontFerret/ferret/pkg/runtime/values"
@@ -37,7 +38,8 @@ func NewUnaryOperator(
 	exp core.Expression,
 	variantStr string,
 ) (*UnaryOperator, error) {
-	variant := UnaryOperatorVariant(variantStr)
+	// keywords are case-insensitive: the token text keeps the spelling of the query (not, Not, NOT)
+	variant := UnaryOperatorVariant(strings.ToUpper(variantStr))
 	fn, exists := unaryOperatorVariants[variant]
 
 	if !exists {
